@@ -36,6 +36,8 @@ func c06(c *Ctx) {
 	c.checkTempKeyPad("R06.A")
 	r.Rule("R06.T", "the byte strings of the exchange (pq, p, q, g_b, encrypted data) are written in the schema's string form for every length: 1-byte header below 254 bytes, 4-byte header from 254 on (= C02 R02.S; g_b is 254 bytes once in 65536 exchanges)", 3)
 	c02Strings(c, an.NewTracer(), "R06.T", "R06.T", "")
+	r.Rule("R06.I", "every answer of the key exchange reaches the caller that waits for it: each successful exit of readMsg after a message was read passes the (blocking) service-channel send or processResponse (= C09 R09.I) - an answer that arrives before the caller is parked must wait for it, not be dropped", 2)
+	c.everyMessageDispatched("R06.I")
 	r.Rule("R06.S", "success effects dominate the success exit; fingerprint sent = fingerprint matched = SHA1(PutMessage(n)PutMessage(e))[12:]", 5)
 
 	sites := c.widthSites(func(f *ssa.Function) bool {
